@@ -180,7 +180,7 @@ def run(tier: str, seed: int, t0: float) -> int:
         need.append((f"Invert:{st}:ok", least))
     for key, least in need:
         if stats.counts.get(key, 0) < least:
-            raise core.MachineryError(f"vacuity gate: {key}={stats.counts.get(key, 0)} < {least}")
+            core.vacuity(out, f"vacuity gate: {key}={stats.counts.get(key, 0)} < {least}")
     return core.finish("C04", tier, seed, stats, out, t0,
                        rule="Transform sessions of 1-8 random operations over the whole API (replace family, marks, split/join/lift/wrap, block type, "
                             "markup, attributes, node marks) from random valid documents of the bundled schemas and variants, observed after every call; "
